@@ -44,6 +44,15 @@ def check(tier, seed, t0):
     os.remove(bres["cases_path"])
     n += bn
     runs.append(bres)
+    # long operands (staircase lines / polygons of 4 - 4200 segments) in positions whose matrix follows from the construction
+    # (Gen_RelBig; lemma SmallAgrees: for n = 4 the construction equals the point-set DE-9IM)
+    lres, ln_, lmm, lsumm = vf.gen_and_replay("C17_long", "Gen_RelBig", dict(Sizes="{4, 66, 130, 1030, 2100, 4200}"), ["C17"], seed,
+                                              invariants=["SmallAgrees"], workers=6, timeout=1500)
+    mism += lmm
+    vf.merge_counts(passc, lsumm["pass"]); vf.merge_counts(failc, lsumm["fail"])
+    os.remove(lres["cases_path"])
+    n += ln_
+    runs.append(lres)
     # recorded histories
     nev = 3000 if tier == "quick" else 30000
     trace = os.path.join(vf.WORK, "C17_trace.ndjson")
